@@ -1220,6 +1220,94 @@ def evCallsN (e : Event) : List HTok :=
 /-- The normal form the hash is meant to respect. -/
 def hnorm (v : Value) : List HTok := (evsV v).flatMap evCallsN
 
+
+/-! ## helpers shared by the monitor and the theorems about `incremental_compare` -/
+
+/-- Two event lists agree event by event. -/
+def evsAgree : List Event → List Event → Bool
+  | [], [] => true
+  | e :: a, f :: b => e.beq f && evsAgree a b
+  | _, _ => false
+
+/-- A brace event (the only events `incremental_compare` ever skips). -/
+def Event.isBrace (e : Event) : Bool := e.beq .startBody || e.beq .endRecord
+
+/-- The events of a stream without the braces. -/
+def leavesOf (es : List Event) : List Event := es.filter fun e => !e.isBrace
+
+/-- Feed a list of events to a validator. -/
+def feedAll (v : VV) : List Event → VV
+  | [] => v
+  | e :: es => feedAll (v.feed e).1 es
+
+/-- The stream is one complete value for the validator: `InProgress` after every proper non-empty prefix, `Init` at
+the end (what the parser produces for a valid text). -/
+def midOk (v : VV) : List Event → Bool
+  | [] => false
+  | [e] => (v.feed e).1.state == .init
+  | e :: e' :: r => (v.feed e).1.state == .inProgress && midOk (v.feed e).1 (e' :: r)
+
+def singleB (s : List Event) : Bool := midOk {} s
+
+
+/-! ## `HashParser` at the level of events, and the printers' layout of a value -/
+
+/-- `HashParser::hash` over a list of events, with the implicit-record decision taken on the events that follow
+(`implicitLook`, what the repaired `is_implicit_record` computes by reading ahead with the parser). For an attribute
+without a body the next event is `EndAttribute` and the look-ahead answers `false`, as the `has_next` test does. -/
+def hashEvs : List Bool → List Event → List HTok
+  | _, [] => []
+  | cb, e :: es =>
+    match e with
+    | .startAttr _ =>
+      if implicitLook 0 0 es then evCalls e ++ evCalls .startBody ++ hashEvs (true :: cb) es
+      else evCalls e ++ hashEvs (false :: cb) es
+    | .endAttr =>
+      (match cb with
+       | true :: cb' => evCalls .endRecord ++ evCalls .endAttr ++ hashEvs cb' es
+       | false :: cb' => evCalls .endAttr ++ hashEvs cb' es
+       | [] => evCalls .endAttr ++ hashEvs [] es)
+    | _ => evCalls e ++ hashEvs cb es
+
+/-- May the body of an attribute with this value be written without braces? (a record without attributes that has a
+slot as its only item, or at least two items) -/
+def implicitBody : Value → Bool
+  | .record .nil (.slot _ _ .nil) => true
+  | .record .nil (.val _ (.val _ _)) => true
+  | .record .nil (.val _ (.slot _ _ _)) => true
+  | .record .nil (.slot _ _ (.val _ _)) => true
+  | .record .nil (.slot _ _ (.slot _ _ _)) => true
+  | _ => false
+
+mutual
+/-- The event stream of a value in a layout: `ch name` says whether the body of an attribute of that name is written
+without braces where that is allowed (`@a(1,2)`, `@a(k:1)`); everything else as in `evsV`.  `ch = fun _ => true` is
+the layout the printers use, `ch = fun _ => false` the fully braced one, anything else a mixture. -/
+def evsG (ch : List Char → Bool) : Value → List Event
+  | .extant => [.extant]
+  | .int _ n => [.num (numOfInt n)]
+  | .float f => [.num (.float f)]
+  | .bool b => [.bool b]
+  | .text s => [.text s]
+  | .data bs => [.blob bs]
+  | .record a i => evsGA ch a ++ (.startBody :: (evsGI ch i ++ [.endRecord]))
+def evsGA (ch : List Char → Bool) : Attrs → List Event
+  | .nil => []
+  | .cons n v r =>
+    (.startAttr n :: ((match v with
+        | .extant => []
+        | .record .nil i =>
+          if ch n && implicitBody (.record .nil i) then evsGI ch i else .startBody :: (evsGI ch i ++ [.endRecord])
+        | w => evsG ch w) ++ [.endAttr])) ++ evsGA ch r
+def evsGI (ch : List Char → Bool) : Items → List Event
+  | .nil => []
+  | .val v r => evsG ch v ++ evsGI ch r
+  | .slot k v r => evsG ch k ++ (.slot :: (evsG ch v ++ evsGI ch r))
+end
+
+/-- The printers' layout. -/
+def evsP (v : Value) : List Event := evsG (fun _ => true) v
+
 /-! ## The float fragment (same test as the harness) -/
 
 def isDigDot (c : Char) : Bool := c.isDigit || c = '.'
